@@ -288,10 +288,12 @@ def match_known(prop, ctx):
 # ------------------------------------------------------------------------------------------------------------------
 # evidence
 def write_evidence(prop, tier, seed, coverage, wall_s, violations, assumptions, level="model_checking"):
-    os.makedirs(os.path.join(VERIF, "evidence"), exist_ok=True)
+    # runs against a scratch copy of the repository (VERIF_REPO: mutants, seeded changes) must not overwrite the evidence of /repo
+    evdir = "evidence" if REPO == "/repo" else os.path.join("build", "evidence_scratch")
+    os.makedirs(os.path.join(VERIF, evdir), exist_ok=True)
     ev = {"property_id": prop, "tier": tier, "seed": int(seed), "level": level, "coverage": coverage,
           "assumptions": assumptions, "wall_s": round(wall_s, 1), "violations": int(violations)}
-    p = os.path.join(VERIF, "evidence", prop + ".json")
+    p = os.path.join(VERIF, evdir, prop + ".json")
     with open(p + ".tmp", "w") as f:
         json.dump(ev, f, indent=1)
     os.replace(p + ".tmp", p)
